@@ -3,6 +3,7 @@
   DSL's width-tagged naturals and core `BitVec`, the decoder-hook immediates, statement shapes.
 -/
 import Amoco.Model.SemDsl
+import Amoco.Model.Flags
 
 namespace Amoco.Rv
 variable {n : Nat}
@@ -546,3 +547,213 @@ theorem ok_SRAW : semIdeal (expected .rv64 .SRAW) (operands .rv64 .SRAW w) σ = 
 end
 
 end Amoco.Rv
+
+/-! # x86 flag helper formulas (Amoco.Model.Flags) -/
+
+namespace Amoco.Flags
+
+theorem cin_toNat (n : Nat) (c : Bool) (hn : 0 < n) : (cin n c).toNat = c.toNat := by
+  unfold cin
+  cases c
+  · simp
+  · simp only [BitVec.ofBool_true, BitVec.toNat_setWidth, Bool.toNat_true]
+    have : 1 < 2 ^ n := Nat.one_lt_two_pow (by omega)
+    simp [Nat.mod_eq_of_lt this]
+
+theorem add3_mod (X Y C k : Nat) (hx : X < k) (hy : Y < k) (hc : C ≤ 1) :
+    ((X + Y) % k + C) % k = if X + Y + C < k then X + Y + C else X + Y + C - k := by
+  have e : ((X + Y) % k + C) % k = (X + Y + C) % k := by
+    rw [Nat.add_mod ((X + Y) % k) C k, Nat.mod_mod, ← Nat.add_mod]
+  rw [e]
+  split
+  · exact Nat.mod_eq_of_lt ‹_›
+  · rw [Nat.mod_eq_sub_mod (by omega)]
+    exact Nat.mod_eq_of_lt (by omega)
+
+theorem sub3_mod (X Y C k : Nat) (hx : X < k) (hy : Y < k) (hc : C ≤ 1) (hk : 1 < k):
+    ((k - C + ((k - Y + X) % k)) % k) = if Y + C ≤ X then X - Y - C else X + k - Y - C := by
+  have e : (k - C + (k - Y + X) % k) % k = (k - C + (k - Y + X)) % k := by
+    rw [Nat.add_mod (k - C) ((k - Y + X) % k) k, Nat.mod_mod, ← Nat.add_mod]
+  rw [e]
+  split
+  · have : k - C + (k - Y + X) = (X - Y - C) + k * 2 := by omega
+    rw [this, Nat.add_mul_mod_self_left]
+    exact Nat.mod_eq_of_lt (by omega)
+  · have : k - C + (k - Y + X) = (X + k - Y - C) + k * 1 := by omega
+    rw [this, Nat.add_mul_mod_self_left]
+    exact Nat.mod_eq_of_lt (by omega)
+
+/-- CF of an addition: the unsigned sum does not fit -/
+theorem awc_carry {m : Nat} (x y : BitVec (m + 1)) (c : Bool) :
+    (addWithCarry x y c).carry = decide (2 ^ (m + 1) ≤ x.toNat + y.toNat + c.toNat) := by
+  have hx := x.isLt
+  have hy := y.isLt
+  have hc : c.toNat ≤ 1 := by cases c <;> simp
+  have hR := add3_mod x.toNat y.toNat c.toNat (2 ^ (m + 1)) hx hy hc
+  have hpow : 2 ^ (m + 1) = 2 * 2 ^ m := by rw [Nat.pow_succ]; omega
+  simp only [addWithCarry, sign, BitVec.msb_eq_decide, Nat.add_sub_cancel, BitVec.toNat_add,
+    cin_toNat (m + 1) c (by omega)]
+  generalize (x.toNat + y.toNat) % 2 ^ (m + 1) + c.toNat = T at hR ⊢
+  generalize T % 2 ^ (m + 1) = R at hR ⊢
+  generalize x.toNat = X at *
+  generalize y.toNat = Y at *
+  generalize c.toNat = C at *
+  generalize 2 ^ m = h at *
+  generalize 2 ^ (m + 1) = k at *
+  subst hpow
+  by_cases h3 : X + Y + C < 2 * h <;> simp only [h3, if_true, if_false] at hR <;>
+  by_cases h1 : h ≤ X <;> by_cases h2 : h ≤ Y <;> by_cases h4 : h ≤ R <;>
+  simp [h1, h2, h4] <;> omega
+end Amoco.Flags
+
+namespace Amoco.Flags
+/-- finish a goal `b = decide P` where `b` is a closed Boolean term, by linear arithmetic -/
+macro "bool_omega" : tactic => `(tactic|
+  (simp only [decide_true, decide_false, if_true, if_false, Bool.xor_self, Bool.true_xor, Bool.xor_true, Bool.false_xor,
+      Bool.xor_false, Bool.not_true, Bool.not_false, Bool.and_true, Bool.and_false, Bool.true_and, Bool.false_and,
+      Bool.or_true, Bool.or_false, Bool.true_or, Bool.false_or, Bool.and_self, Bool.or_self]
+   first
+   | (rw [eq_comm, decide_eq_true_iff]; omega)
+   | (rw [eq_comm, decide_eq_false_iff_not]; omega)))
+
+/-- OF of an addition: the signed sum does not fit in the width -/
+theorem awc_overflow {m : Nat} (x y : BitVec (m + 1)) (c : Bool) :
+    (addWithCarry x y c).overflow =
+      decide (x.toInt + y.toInt + (c.toNat : Int) < -((2 ^ m : Nat) : Int) ∨ ((2 ^ m : Nat) : Int) ≤ x.toInt + y.toInt + (c.toNat : Int)) := by
+  have hx := x.isLt
+  have hy := y.isLt
+  have hc : c.toNat ≤ 1 := by cases c <;> simp
+  have hR := add3_mod x.toNat y.toNat c.toNat (2 ^ (m + 1)) hx hy hc
+  have hpow : 2 ^ (m + 1) = 2 * 2 ^ m := by rw [Nat.pow_succ]; omega
+  simp only [addWithCarry, sign, BitVec.msb_eq_decide, Nat.add_sub_cancel, BitVec.toNat_add,
+    cin_toNat (m + 1) c (by omega), BitVec.toInt_eq_toNat_cond]
+  generalize (x.toNat + y.toNat) % 2 ^ (m + 1) + c.toNat = T at hR ⊢
+  generalize T % 2 ^ (m + 1) = R at hR ⊢
+  by_cases h3 : x.toNat + y.toNat + c.toNat < 2 ^ (m + 1) <;> simp only [h3, if_true, if_false] at hR <;>
+  by_cases h1 : 2 ^ m ≤ x.toNat <;> by_cases h2 : 2 ^ m ≤ y.toNat <;> by_cases h4 : 2 ^ m ≤ R <;>
+  by_cases i1 : 2 * x.toNat < 2 ^ (m + 1) <;> by_cases i2 : 2 * y.toNat < 2 ^ (m + 1) <;> (try omega) <;>
+  simp only [h1, h2, h4, i1, i2] <;> bool_omega
+
+/-- CF of a subtraction: a borrow is needed -/
+theorem swb_carry {m : Nat} (x y : BitVec (m + 1)) (c : Bool) :
+    (subWithBorrow x y c).carry = decide (x.toNat < y.toNat + c.toNat) := by
+  have hx := x.isLt
+  have hy := y.isLt
+  have hc : c.toNat ≤ 1 := by cases c <;> simp
+  have hpow : 2 ^ (m + 1) = 2 * 2 ^ m := by rw [Nat.pow_succ]; omega
+  have hk : 1 < 2 ^ (m + 1) := Nat.one_lt_two_pow (by omega)
+  have hR := sub3_mod x.toNat y.toNat c.toNat (2 ^ (m + 1)) hx hy hc hk
+  simp only [subWithBorrow, sign, BitVec.msb_eq_decide, Nat.add_sub_cancel, BitVec.toNat_sub,
+    cin_toNat (m + 1) c (by omega)]
+  generalize (2 ^ (m + 1) - c.toNat + (2 ^ (m + 1) - y.toNat + x.toNat) % 2 ^ (m + 1)) % 2 ^ (m + 1) = R at hR ⊢
+  by_cases h3 : y.toNat + c.toNat ≤ x.toNat <;> simp only [h3, if_true, if_false] at hR <;>
+  by_cases h1 : 2 ^ m ≤ x.toNat <;> by_cases h2 : 2 ^ m ≤ y.toNat <;> by_cases h4 : 2 ^ m ≤ R <;> (try omega) <;>
+  simp only [h1, h2, h4] <;> bool_omega
+
+/-- OF of a subtraction: the signed difference does not fit in the width -/
+theorem swb_overflow {m : Nat} (x y : BitVec (m + 1)) (c : Bool) :
+    (subWithBorrow x y c).overflow =
+      decide (x.toInt - y.toInt - (c.toNat : Int) < -((2 ^ m : Nat) : Int) ∨ ((2 ^ m : Nat) : Int) ≤ x.toInt - y.toInt - (c.toNat : Int)) := by
+  have hx := x.isLt
+  have hy := y.isLt
+  have hc : c.toNat ≤ 1 := by cases c <;> simp
+  have hpow : 2 ^ (m + 1) = 2 * 2 ^ m := by rw [Nat.pow_succ]; omega
+  have hk : 1 < 2 ^ (m + 1) := Nat.one_lt_two_pow (by omega)
+  have hR := sub3_mod x.toNat y.toNat c.toNat (2 ^ (m + 1)) hx hy hc hk
+  simp only [subWithBorrow, sign, BitVec.msb_eq_decide, Nat.add_sub_cancel, BitVec.toNat_sub,
+    cin_toNat (m + 1) c (by omega), BitVec.toInt_eq_toNat_cond]
+  generalize (2 ^ (m + 1) - c.toNat + (2 ^ (m + 1) - y.toNat + x.toNat) % 2 ^ (m + 1)) % 2 ^ (m + 1) = R at hR ⊢
+  by_cases h3 : y.toNat + c.toNat ≤ x.toNat <;> simp only [h3, if_true, if_false] at hR <;>
+  by_cases h1 : 2 ^ m ≤ x.toNat <;> by_cases h2 : 2 ^ m ≤ y.toNat <;> by_cases h4 : 2 ^ m ≤ R <;>
+  by_cases i1 : 2 * x.toNat < 2 ^ (m + 1) <;> by_cases i2 : 2 * y.toNat < 2 ^ (m + 1) <;> (try omega) <;>
+  simp only [h1, h2, h4, i1, i2] <;> bool_omega
+
+/-- the result is the sum / difference modulo 2^n -/
+theorem awc_res {n : Nat} (x y : BitVec n) (c : Bool) (hn : 0 < n) :
+    (addWithCarry x y c).res.toNat = (x.toNat + y.toNat + c.toNat) % 2 ^ n := by
+  simp [addWithCarry, BitVec.toNat_add, cin_toNat n c hn]
+
+theorem halfcarry_eq {n : Nat} (x y : BitVec n) (c : Bool) :
+    halfcarry x y c = decide (16 ≤ x.toNat % 16 + y.toNat % 16 + c.toNat) := by
+  unfold halfcarry
+  rw [awc_carry (m := 3)]
+  simp [BitVec.extractLsb'_toNat]
+
+theorem halfborrow_eq {n : Nat} (x y : BitVec n) (c : Bool) :
+    halfborrow x y c = decide (x.toNat % 16 < y.toNat % 16 + c.toNat) := by
+  unfold halfborrow
+  rw [swb_carry (m := 3)]
+  simp [BitVec.extractLsb'_toNat]
+
+/-- facts about `a - b` used by the condition-code theorems -/
+theorem cmp_core {m : Nat} (a b : BitVec (m + 1)) :
+    (cmpFlags a b).cf = a.ult b ∧ (cmpFlags a b).zf = (a == b) ∧
+    ((cmpFlags a b).sf != (cmpFlags a b).of) = a.slt b := by
+  have hx := a.isLt
+  have hy := b.isLt
+  have hpow : 2 ^ (m + 1) = 2 * 2 ^ m := by rw [Nat.pow_succ]; omega
+  have hk : 1 < 2 ^ (m + 1) := Nat.one_lt_two_pow (by omega)
+  have hR := sub3_mod a.toNat b.toNat 0 (2 ^ (m + 1)) hx hy (by omega) hk
+  have hres : (subWithBorrow a b false).res.toNat =
+      if b.toNat + 0 ≤ a.toNat then a.toNat - b.toNat - 0 else a.toNat + 2 ^ (m + 1) - b.toNat - 0 := by
+    simp only [subWithBorrow, BitVec.toNat_sub, cin_toNat (m + 1) false (by omega), Bool.toNat_false]
+    exact hR
+  have hz : (0 : BitVec (m + 1)).toNat = 0 := by simp
+  refine ⟨?_, ?_, ?_⟩
+  · show (subWithBorrow a b false).carry = _
+    rw [swb_carry, BitVec.ult_eq_decide]; simp
+  · show ((subWithBorrow a b false).res == 0) = _
+    rw [Bool.eq_iff_iff]
+    simp only [beq_iff_eq, ← BitVec.toNat_inj, hres, hz]
+    split <;> omega
+  · show ((subWithBorrow a b false).res.msb != (subWithBorrow a b false).overflow) = _
+    rw [swb_overflow, BitVec.slt_eq_decide, BitVec.msb_eq_decide]
+    generalize (subWithBorrow a b false).res.toNat = R at hres ⊢
+    simp only [BitVec.toInt_eq_toNat_cond, Bool.toNat_false, Nat.add_sub_cancel]
+    by_cases h3 : b.toNat + 0 ≤ a.toNat <;> simp only [h3, if_true, if_false] at hres <;>
+    by_cases i1 : 2 * a.toNat < 2 ^ (m + 1) <;> by_cases i2 : 2 * b.toNat < 2 ^ (m + 1) <;>
+    simp only [i1, i2, if_true, if_false] <;>
+    rw [Bool.eq_iff_iff] <;>
+    simp only [bne_iff_ne, ne_eq, decide_eq_true_eq, decide_eq_decide] <;>
+    omega
+
+theorem ule_eq {n} (a b : BitVec n) : a.ule b = (a.ult b || a == b) := by
+  rw [Bool.eq_iff_iff]
+  simp only [BitVec.ule_eq_decide, BitVec.ult_eq_decide, Bool.or_eq_true, decide_eq_true_eq, beq_iff_eq, ← BitVec.toNat_inj]
+  omega
+
+theorem sle_eq {n} (a b : BitVec n) : a.sle b = (a.slt b || a == b) := by
+  rw [Bool.eq_iff_iff]
+  simp only [BitVec.sle_eq_decide, BitVec.slt_eq_decide, Bool.or_eq_true, decide_eq_true_eq, beq_iff_eq, ← BitVec.toInt_inj]
+  omega
+
+/-- **Condition codes after CMP are the order relations** (all widths ≥ 1, all operands). -/
+theorem cc_after_cmp {m : Nat} (a b : BitVec (m + 1)) :
+    cond 0x2 (cmpFlags a b) = a.ult b ∧ cond 0x3 (cmpFlags a b) = !(a.ult b) ∧
+    cond 0x4 (cmpFlags a b) = (a == b) ∧ cond 0x5 (cmpFlags a b) = (a != b) ∧
+    cond 0x6 (cmpFlags a b) = a.ule b ∧ cond 0x7 (cmpFlags a b) = !(a.ule b) ∧
+    cond 0xC (cmpFlags a b) = a.slt b ∧ cond 0xD (cmpFlags a b) = !(a.slt b) ∧
+    cond 0xE (cmpFlags a b) = a.sle b ∧ cond 0xF (cmpFlags a b) = !(a.sle b) := by
+  obtain ⟨h1, h2, h3⟩ := cmp_core a b
+  have h4 : ((cmpFlags a b).sf == (cmpFlags a b).of) = !(a.slt b) := by
+    rw [← h3]; cases (cmpFlags a b).sf <;> cases (cmpFlags a b).of <;> rfl
+  simp only [cond, h1, h2, h3, h4, ule_eq, sle_eq]
+  unfold bne
+  generalize a.ult b = u
+  generalize a.slt b = s
+  generalize (a == b) = e
+  cases u <;> cases s <;> cases e <;> decide
+end Amoco.Flags
+
+namespace Amoco.Flags
+theorem parity8_even : ∀ x : BitVec 8, parity8With 0x9669#16 x = evenParity x := by decide
+theorem parity8_6996_odd : ∀ x : BitVec 8, parity8With 0x6996#16 x = !evenParity x := by decide
+
+theorem writeReg32_upper (old v : BitVec 64) : (writeReg old 32 v).extractLsb' 32 32 = 0#32 := by
+  apply BitVec.eq_of_toNat_eq
+  simp [writeReg, BitVec.extractLsb'_toNat, Nat.shiftRight_eq_div_pow]
+  omega
+theorem writeReg32_lower (old v : BitVec 64) : (writeReg old 32 v).extractLsb' 0 32 = v.extractLsb' 0 32 := by
+  apply BitVec.eq_of_toNat_eq
+  simp [writeReg, BitVec.extractLsb'_toNat]
+end Amoco.Flags
